@@ -90,6 +90,25 @@
         exclusion is wider than the finding: a well-formed document with markup in an entity value is
         not covered either.
 
+    (7') round 2 -- ENTITY VALUES WITH MARKUP ([markup_entities s], Proofs/XmlWFSyntaxEntMarkup.v):
+          accepted_is_wellformed_markup_partial :
+            forall s d, from_raw s = OOk ([], d) -> KnownD04_doc s = false -> markup_entities s = true ->
+              KnownNS s = false -> wf s = true
+        Entity values may now contain elements, comments, PIs, CDATA sections and `<` written as a
+        character reference, besides nested references.  XmlDocument::new re-reads the replacement text of
+        an entity referenced in content against the production `content`; by rung 2 ([syn_content]) the
+        specification reads the same text and builds the translated tree, which it then expands
+        recursively.  [markup_entities] asks of every declared internal general entity: no character
+        reference of the literal yields `&`; every reference of the literal has a Name; and, when the
+        replacement text is content for the parser, in that content (i) the names at the D04 positions
+        are Names, (ii) elements carry NO ATTRIBUTES, (iii) every entity reference is a reference of the
+        literal, (iv) every character reference is a legal character.  (ii)-(iv) and the `&` condition
+        fence off finding WF13 (the implementation looks for references in the literal and never checks
+        constraints inside the markup of replacement text); they still exclude well-formed documents
+        whose entity values contain tags WITH attributes.  [markup_entities] and [simple_entities] are
+        not comparable as stated (7 keeps its own theorem); [markup_hypotheses_satisfiable] is a document
+        that (7) does not cover.
+
     (8) round 2 -- THE CONVERSE FOR DOCUMENTS WITHOUT DOCTYPE, so that (4) is tight:
           nodoctype_exactly_wellformed_partial :
             forall s, (wf s = true /\ spec_nodoctype s = true) <->
@@ -107,15 +126,15 @@
 
     Missing for the full conditional theorem
       forall s d, Known_C02 s = false -> from_raw s = OOk ([], d) -> wf s = true :
-    entity values with markup or with `&` from a character reference, for which the statement needs
-    the narrow classifier of WF13 (checks/C02.py) instead of [simple_entities].  Documents with a DOCTYPE are covered by the failing-input search of checks/C02.py
+    entity values whose markup carries attributes, or with `&` from a character reference, for which the
+    statement needs the narrow classifier of WF13 (checks/C02.py) instead of [markup_entities] / [simple_entities].  Documents with a DOCTYPE are covered by the failing-input search of checks/C02.py
     (specification vs implementation, with expat as independent oracle of the specification). *)
 From Coq Require Import List NArith Bool.
 From XmlRs Require Import Base.CPred Spec.XmlChars Spec.XmlWF Model.Peg Gen.GrammarXmlGen Model.ParseActions Model.Info
   Proofs.NameLanguage Proofs.XmlWFLexical Proofs.XmlWFModel Proofs.ParseInvElem
   Proofs.XmlWFSyntaxLex Proofs.XmlWFSyntaxElem Proofs.XmlWFSyntaxDoc Proofs.XmlWFSyntaxCheck
   Proofs.XmlWFSyntaxDtd Proofs.XmlWFSyntaxDtdElem Proofs.XmlWFSyntaxDtdDoc Proofs.XmlWFSyntaxDtdCheck
-  Proofs.XmlWFSyntaxEntRec Proofs.XmlWFSyntaxDtdFull
+  Proofs.XmlWFSyntaxEntRec Proofs.XmlWFSyntaxDtdFull Proofs.XmlWFSyntaxEntMarkup Proofs.XmlWFSyntaxDtdMarkup
   Proofs.XmlWFSyntaxConvLex Proofs.XmlWFSyntaxConvElem Proofs.XmlWFSyntaxConvDoc Proofs.XmlWFSyntaxConvCheck.
 Import ListNotations.
 
@@ -278,6 +297,28 @@ Example simple_hypotheses_satisfiable :
   (exists d, from_raw ex_nested = OOk ([], d)) /\ KnownD04_doc ex_nested = false /\ simple_entities ex_nested = true
   /\ plain_entities ex_nested = false /\ KnownNS ex_nested = false.
 Proof. exact accepted_wf_simple_nonvacuous. Qed.
+
+(** ** (7') entity values with markup *)
+Theorem constraints_markup_partial : forall (pd : pdoc) (d : document), ParseInvDoc.p_doc_ok pd -> ok_doc pd = true -> markup_doc pd = true ->
+  build_document pd = IOk d -> exists root, check_doc (x_doc pd) = inr root.
+Proof. exact check_doc_markup. Qed.
+
+Theorem accepted_is_wf_xml10_markup_partial : forall s d,
+  from_raw s = OOk ([], d) -> KnownD04_doc s = false -> markup_entities s = true -> wf_xml10 s = true.
+Proof. exact accepted_wf10_markup. Qed.
+
+Theorem accepted_is_wellformed_markup_partial : forall s d,
+  from_raw s = OOk ([], d) -> KnownD04_doc s = false -> markup_entities s = true -> KnownNS s = false -> wf s = true.
+Proof. exact accepted_wf_markup. Qed.
+
+Example markup_hypotheses_satisfiable :
+  (exists d, from_raw ex_markup = OOk ([], d)) /\ KnownD04_doc ex_markup = false /\ markup_entities ex_markup = true
+  /\ simple_entities ex_markup = false /\ KnownNS ex_markup = false.
+Proof. exact accepted_wf_markup_nonvacuous. Qed.
+
+Print Assumptions constraints_markup_partial.
+Print Assumptions accepted_is_wf_xml10_markup_partial.
+Print Assumptions accepted_is_wellformed_markup_partial.
 
 (** ** (8) the converse for documents without DOCTYPE *)
 Theorem wellformed_nodoctype_is_accepted_partial : forall s, wf s = true -> spec_nodoctype s = true ->
